@@ -154,6 +154,16 @@ utils::Report multitensor_factorization(const std::vector<vertex_t> &edges_start
             ", intead got " + std::to_string(u.size()) + "\n");
     }
 
+    if (std::get<0>(u.dims()) != nof_vertices || std::get<1>(u.dims()) != nof_groups)
+    {
+        throw std::runtime_error(
+            "[multitensor] U shape should be (nof_vertices x k) with k = " +
+            std::to_string(nof_groups) +
+            " and nof_vertices = " + std::to_string(nof_vertices) +
+            ", intead got " + std::to_string(std::get<0>(u.dims())) + " x " +
+            std::to_string(std::get<1>(u.dims())) + "\n");
+    }
+
     // Check number of realizations
     if (nof_realizations < 1)
     {
